@@ -8,7 +8,7 @@ CFG = dict(
     kinds={"gens": ("gens_case", "check_gens")},
     known_classes={},
     shard=4,
-    rule="seeded sequences of start_election / RequestVote / RequestVoteResponse / AppendEntries (consistent, conflicting, inconsistent prev) / AppendEntriesResponse / become_leader / propose on a real RaftNode::with_wal; the real WAL file truncated at EVERY byte offset of each generation's appends; node restarted (with_wal + RaftRecoveryState::from_wal) and probed with a RequestVote; up to three crash generations",
+    rule="seeded sequences of start_election / RequestVote / RequestVoteResponse / AppendEntries (consistent, conflicting, inconsistent prev) / AppendEntriesResponse / become_leader / propose / in-memory log compaction (finalize_to + create_snapshot + truncate_log with snapshot_trailing_logs 0 / 1 / 2, then conflicting AppendEntries above the compaction base) on a real RaftNode::with_wal; the real WAL file truncated at EVERY byte offset of each generation's appends; node restarted (with_wal + RaftRecoveryState::from_wal) and probed with a RequestVote (restart log compared with the live log by entry index); up to three crash generations",
     trusted_base=COMMON_TB + [
         "modelled, not verified: bitcode payload (de)serialisation (premise deser (ser e) = Some e; the harness supplies the real payload bytes), crc32fast (concrete Gallina CRC-32 compared byte-for-byte with every real log file), the file system below 'a file is a byte string; a crash keeps a prefix of unsynced appends'; read-only accessors verif_log_image / verif_voted_for (hook 3b917115)",
     ],
